@@ -1,6 +1,9 @@
 """C01 - safe loading is confined to plain data (confinement argument over the program text)."""
 import sys
 
+from sa import rules_grammar as RG
+from sa import crosslist as XL
+from sa import rules_r6b as R6B
 from sa import rules_r6 as R6
 from sa import report, effects as E, partial as P, rules_registry as RR, rules_confine as RC
 from sa import rules_repr as RREPR
@@ -51,6 +54,11 @@ def run(ctx, repo):
     ctx.call(RREPR.r_hashable_guard, repo)
     ctx.call(R6.r_kind_exit, repo)
     ctx.call(R6.r_generator_drained, repo)
+    ctx.call(R6B.r_assert_inventory, repo, ('constructor', 'resolver'))
+    ctx.call(R6B.r_no_codec_lookup, repo)
+    XL.mapping_rules(ctx, repo)
+    ctx.call(R6B.r_constructor_kind_checked, repo, ['loader.SafeLoader', 'loader.BaseLoader'])
+    ctx.call(RG.r_parser_grammar, repo, max_len=8 if ctx.tier == 'thorough' else 6)
 
 
 if __name__ == '__main__':
